@@ -41,6 +41,8 @@ def strategy(draw, tier="quick"):
         "split": draw(st.integers(0, n)),
         "meta_data": draw(st.one_of(st.none(), gen.json_data(4).filter(lambda d: len(d) > 0))),
         "repeat": draw(st.one_of(st.just([]), st.just([]), st.lists(st.integers(0, 99), min_size=1, max_size=3))),
+        "pre_buckets": draw(st.integers(0, 2)),
+        "rejected_bulk": draw(st.integers(0, 3)) == 0,
     }
 
 
@@ -96,6 +98,8 @@ def run_case(case):
             kw = {}
             if case["meta_data"] is not None:
                 kw["data"] = json.loads(json.dumps(case["meta_data"]))
+            for k_ in range(case.get("pre_buckets", 0)):  # so that the bucket's row id is not the same in every store of this process
+                stores.create_bucket(ds, f"other{k_}")
             b = stores.create_bucket(ds, "b1", name="nm", **kw)
         objs = []
         for i, s in enumerate(specs):
@@ -124,6 +128,15 @@ def run_case(case):
             with sut(f"{backend}: insert([events])"):
                 b.insert(bulk)
         total = sum(mult.values())
+        if case.get("rejected_bulk"):
+            # an operation that is rejected (bulk insert through the handle of a bucket that no longer exists) must not take
+            # earlier accepted inserts with it
+            try:
+                gone = stores.create_bucket(ds, "gone")
+                ds.delete_bucket("gone")
+                gone.insert([stores.mk_event(Event, specs[0]), stores.mk_event(Event, specs[0])])
+            except Exception:
+                pass
 
         def snapshot():
             lst = _read_all(b, backend)
